@@ -85,6 +85,7 @@ CONV = {
     5: lambda v: v,
     6: lambda v, row: (v, len(row)),
     7: lambda v: _CODES[v],          # a lookup-table converter: KeyError on 2 and 'x'
+    8: lambda v, row: _raise(8) if v in (2, 'x') else ('ok', v, len(row)),     # pass_row=True, fails on 2 and 'x'
 }
 _CODES = {0: 'zero', 1: 'one', 'b': 'bee', None: 'none'}
 
